@@ -226,7 +226,7 @@ def conds(tier):
         cs.append(Cond("punctdel-m%d-n%d" % (m, n), "harness.c11:punctdel", e1_params(m, n) + ws + [P("quiet", "bool")],
                        fixed={"m": m, "n": n}, pre=[e1_wf_expr(m, n)], shard=["quiet"] + (["w1"] if m * n >= 9 else []) +
                        (["lp1"] if m * n >= 12 else []), timeout=400 if q else 2400, functions=FUNCS[:2]))
-    for (m, n) in ([(1, 2), (1, 3), (2, 2)] if q else [(1, 3), (2, 2), (2, 3)]):
+    for (m, n) in ([(1, 2), (1, 3), (2, 2)] if q else [(1, 3), (2, 2), (1, 4)]):
         ks = [P("k%d" % j, "int", 0, 4) for j in range(1, n + 1)]
         cl = [P("c%d" % i, "int", 0, 4) for i in range(1, m)]
         cs.append(Cond("traces-m%d-n%d" % (m, n), "harness.c11:traces",
